@@ -36,10 +36,12 @@ func init() {
 		"go.fifthex":     goFiftHex,
 		"go.fiftreject":  goFiftReject,
 		"go.topup":       goTopUp,
+		"go.settop":      goSetTop,
 		"go.parsedwrite": goParsedWrite,
 		"go.refs":        goRefs,
 		"go.copyrem":     goCopyRemaining,
 		"go.negarg":      goNegArg,
+		"go.bigarg":      goNegArg, // same contract: no panic, an error, state untouched
 		"go.writeint":    goWriteInt,
 		"go.minbits":     goMinBits,
 	}})
@@ -90,6 +92,22 @@ func bigOf(s string) *big.Int {
 		panic("bad big arg " + s)
 	}
 	return v
+}
+
+// srcOf: the source of WriteBitString / Append: the bits, optionally ("bits:k") with k of them already read
+// (Skip(k)) — the source's read cursor must not matter.
+func srcOf(f []string) boc.BitString {
+	b := bsOf(f[1])
+	if len(f) > 2 {
+		k := atoi(f[2])
+		if err := b.Skip(k); err != nil {
+			panic("srcOf: skip")
+		}
+		if k > 0 {
+			b.PickUint(1) // a peek leaves the cursor where it is
+		}
+	}
+	return b
 }
 
 // bsOf builds the canonical bit string holding the given bits: NewBitString(len) + WriteBit.
@@ -201,7 +219,13 @@ func applyItem(t bitIO, tok string) (out string) {
 	case "wy":
 		return res("", t.WriteBytes(h.MustUnHex(f[1])))
 	case "ws":
-		return res("", t.WriteBitString(bsOf(f[1])))
+		src := srcOf(f)
+		before := src.BitsAvailableForRead()
+		r := res("", t.WriteBitString(src))
+		if src.BitsAvailableForRead() != before {
+			return "src-moved"
+		}
+		return r
 	case "wU":
 		return res("", t.WriteBigUint(bigOf(f[1]), atoi(f[2])))
 	case "wI":
@@ -279,7 +303,7 @@ func applyItem(t bitIO, tok string) (out string) {
 			bs.Grow(atoi(f[1]))
 			return "ok"
 		case "ap":
-			bs.Append(bsOf(f[1]))
+			bs.Append(srcOf(f))
 			return "ok"
 		case "cp":
 			*bs = bs.Copy()
@@ -597,7 +621,7 @@ func goWriteRead(a []string) string {
 		case "l":
 			err = bs.WriteLimUint(atoi(f[1]), atoi(f[2]))
 		case "s":
-			err = bs.WriteBitString(bsOf(f[1]))
+			err = bs.WriteBitString(srcOf(f))
 		default:
 			return "bad-op"
 		}
@@ -837,6 +861,43 @@ func goTopUp(a []string) string {
 	}
 	if bitsOfBs(bs) != bin {
 		return fail("topup-mutates", "receiver changed")
+	}
+	return "ok"
+}
+
+// go.settop <hex>: SetTopUppedArray(arr, false) accepts exactly the arrays whose last byte carries the completion tag in
+// its low seven bits (a 1 followed by 0..6 zeros) and then holds the bits before the tag; an array whose last seven bits
+// are all zero has no tag and must be rejected (a 1 eight bits from the end is data, not a tag).
+func goSetTop(a []string) string {
+	arr := h.MustUnHex(a[0])
+	var bs boc.BitString
+	err := bs.SetTopUppedArray(arr, false)
+	if len(arr) == 0 {
+		if err != nil {
+			return fail("settop-empty", "")
+		}
+		return "ok"
+	}
+	last := arr[len(arr)-1]
+	if last&0x7f == 0 {
+		if err == nil {
+			return fail("settop-accepts", "%x has no tag in its last 7 bits, accepted with %d bits", arr, bs.GetWriteCursor())
+		}
+		return "ok"
+	}
+	if err != nil {
+		return fail("settop-rejects", "%x", arr)
+	}
+	want := 8*len(arr) - 1 - bits.TrailingZeros8(last)
+	if bs.GetWriteCursor() != want {
+		return fail("settop-len", "%x: %d bits, want %d", arr, bs.GetWriteCursor(), want)
+	}
+	var sb strings.Builder
+	for _, b := range arr {
+		fmt.Fprintf(&sb, "%08b", b)
+	}
+	if got := bitsOfBs(bs); got != sb.String()[:want] {
+		return fail("settop-bits", "%x", arr)
 	}
 	return "ok"
 }
@@ -1253,6 +1314,14 @@ func negItem(g *h.G) string {
 	}
 }
 
+// bigItem: a read / skip whose count is near 2^60 .. 2^63: products such as size*8 overflow a Go int there
+func bigItem(g *h.G, i int) string {
+	sizes := []uint64{1 << 60, 1<<60 + 1, 1<<61 - 1, 1 << 61, 1<<61 + 3, 1 << 62, 1<<62 + 7, 1<<63 - 8, 1<<63 - 1}
+	n := sizes[i%len(sizes)]
+	ops := []string{"ry", "rs", "sk", "rU", "rI", "ru", "pu", "ri"}
+	return fmt.Sprintf("%s:%d", ops[(i/len(sizes))%len(ops)], n)
+}
+
 // negItem2: a negative-argument item available through the Cell wrappers
 func negItem2(g *h.G) string {
 	for {
@@ -1265,6 +1334,11 @@ func negItem2(g *h.G) string {
 
 func (q *seqGen) step() {
 	g := q.g
+	if g.Rng.Intn(45) == 0 {
+		q.items = append(q.items, bigItem(g, g.Rng.Intn(72)))
+		q.errs = true
+		return
+	}
 	if g.Rng.Intn(30) == 0 {
 		it := negItem(g)
 		if strings.HasPrefix(it, "o") {
@@ -1333,7 +1407,11 @@ func (q *seqGen) step() {
 			if !q.cell && g.Rng.Intn(3) == 0 {
 				tok = "wa:"
 			}
-			q.write(n, tok+randBits(g, n))
+			bitsS := randBits(g, n)
+			if tok == "ws:" && n > 0 && g.Rng.Intn(2) == 0 { // a partially (or completely) read source
+				bitsS += fmt.Sprintf(":%d", 1+g.Rng.Intn(n))
+			}
+			q.write(n, tok+bitsS)
 		case k < 15:
 			n := 1 + g.Rng.Intn(257)
 			if g.Rng.Intn(3) == 0 {
@@ -1395,7 +1473,11 @@ func (q *seqGen) step() {
 				q.cap += n
 			case 1:
 				n := g.Rng.Intn(60)
-				q.items = append(q.items, "ap:"+randBits(g, n))
+				apS := randBits(g, n)
+				if n > 0 && g.Rng.Intn(2) == 0 {
+					apS += fmt.Sprintf(":%d", 1+g.Rng.Intn(n))
+				}
+				q.items = append(q.items, "ap:"+apS)
 				if q.ln+n > q.cap {
 					q.cap = q.ln + n
 				}
@@ -1655,7 +1737,11 @@ func genC06(g *h.G) {
 				w := pickWidth(g)
 				return fmt.Sprintf("wi:%d:%d", intOfWidth(g, w), w)
 			case 4:
-				return "ws:" + randBits(g, g.Rng.Intn(40))
+				nb := g.Rng.Intn(40)
+				if nb > 0 && g.Rng.Intn(2) == 0 {
+					return fmt.Sprintf("ws:%s:%d", randBits(g, nb), 1+g.Rng.Intn(nb))
+				}
+				return "ws:" + randBits(g, nb)
 			case 5:
 				return "wy:" + h.Hex(g.Bytes(g.Rng.Intn(5)))
 			case 6, 7:
@@ -1858,6 +1944,9 @@ func genC06(g *h.G) {
 			default:
 				n = g.Rng.Intn(30)
 				tok = "s:" + randBits(g, n)
+				if n > 0 && k%2 == 0 { // every second nested bit string comes from a source that has been read
+					tok += fmt.Sprintf(":%d", 1+g.Rng.Intn(n))
+				}
 			}
 			if total+n > 1023 {
 				break
@@ -1998,6 +2087,36 @@ func genC06(g *h.G) {
 	}
 	for n := 0; n <= 7; n++ {
 		g.Emit("go.refs", fmt.Sprint(n))
+	}
+	// SetTopUppedArray on arbitrary arrays: every value of the last byte x both parities of the byte before it
+	for last := 0; last < 256; last++ {
+		for _, prev := range []byte{0x00, 0x01, 0xfe, 0xff} {
+			arr := append(g.Bytes(g.Rng.Intn(3)), prev, byte(last))
+			if last%4 == 0 && prev == 0 {
+				arr = []byte{byte(last)}
+			}
+			g.Emit("go.settop", h.Hex(arr))
+			g.Emit("bs.seq", "0", fmt.Sprintf("st:%s:0;av;ru:3;rr", h.Hex(arr)))
+		}
+	}
+	g.Emit("go.settop", "-")
+	g.Emit("bs.seq", "0", "st:-:0;av")
+	g.Emit("bs.seq", "0", "st:-:1;av")
+	for i := 0; i < 72*g.Scale(2, 6); i++ { // every (operation, size) pair, deterministically
+		nb := 8 * g.Rng.Intn(6)
+		if i%3 == 0 {
+			nb = g.Rng.Intn(40)
+		}
+		bin := randBits(g, nb)
+		if bin == "" {
+			bin = "-"
+		}
+		sk := g.Rng.Intn(nb + 1)
+		if i%2 == 0 {
+			sk = sk / 8 * 8 // the byte-aligned path of ReadBytes slices the buffer directly
+		}
+		g.Emit("go.bigarg", bin, fmt.Sprint(sk), bigItem(g, i))
+		g.Count("huge_int_argument")
 	}
 	for i := 0; i < g.Scale(600, 6000); i++ {
 		nb := g.Rng.Intn(40)
